@@ -554,10 +554,12 @@ fn real_main(property: &str, seed: u64, tier: Tier, replay: Option<String>, runs
             if quick { vec![(2, 2), (1, 1)] } else { vec![(2, 2), (1, 1), (2, 1), (1, 2), (3, 2), (2, 3), (4, 2)] }
         }
     };
+    // observers (C18) are built for every shape in the thorough tier, for the cheapest shape only in quick
+    let replay_is_set = replay_file.is_some();
     let arts: Vec<real::Artifacts> = {
         let _gag = qpz_core::Gag::new();
         std::thread::scope(|s| {
-            let hs: Vec<_> = shapes.iter().map(|(n, m)| s.spawn(move || real::build_artifacts(*n, *m, seed, c18))).collect();
+            let hs: Vec<_> = shapes.iter().map(|(n, m)| s.spawn(move || real::build_artifacts(*n, *m, seed, c18 && (!quick || (*n, *m) == (1, 1) || replay_is_set)))).collect();
             hs.into_iter().map(|h| h.join().unwrap_or_else(|_| harness_error("artifact generation panicked"))).collect()
         })
     };
